@@ -38,7 +38,7 @@ def _scenario(draw, tier):
         d = draw(st.sampled_from([1, 2, 3]))
     ops = []
     for _ in range(draw(st.integers(1, 4))):
-        k = draw(st.sampled_from(["propose_add", "propose_add", "add_random", "add_duplicate", "add_outlier", "propose", "decoy", "anneal", "lik_query"]))
+        k = draw(st.sampled_from(["propose_add", "propose_add", "add_random", "add_duplicate", "add_outlier", "propose", "decoy", "anneal", "lik_query", "retune"]))
         ops.append([k, draw(st.integers(0, 2 ** 16))])
     return dict(
         d=d, n0=n0, seed=draw(st.integers(0, 2 ** 32 - 1)),
@@ -343,6 +343,27 @@ def execute(sc):
                     if any(not np.array_equal(a_, b_) for a_, b_ in zip(after_, before_)) or not np.array_equal(np.asarray(opt.gp.hyperpars, dtype=float), th0):
                         _viol(V, "data.refit", "read-only likelihood queries changed the regressor's predictions / hyper-parameters")
                         break
+                    spot_oracles(V, opt, sc, bounds, og, stats)
+                    continue
+                if name == "retune":
+                    # the caller sets other hyper-parameters on the live regressor (public GpRegressor.set_hyperparameters)
+                    # between two rounds of queries: the acquisition must describe the regressor as it is now
+                    try:
+                        th0 = np.array(opt.gp.hyperpars, dtype=float, copy=True)
+                        setter = opt.gp.set_hyperparameters
+                    except Exception:  # noqa - another regressor interface: not interpretable
+                        stats["warn_retune_not_interpretable"] += 1
+                        continue
+                    spot_oracles(V, opt, sc, bounds, og, stats)  # queries before (anything cached is cached now)
+                    if V:
+                        break
+                    th1 = th0 + np.where(np.arange(th0.size) % 2 == 0, 0.35, -0.45) * (1.0 if s % 2 else -1.0)
+                    try:
+                        lib_call("gp.set_hyperparameters", setter, th1)
+                    except LibRaised:
+                        stats["warn_retune_refused"] += 1
+                        continue
+                    stats["fault_hyperparameters_set_on_live_regressor"] += 1
                     spot_oracles(V, opt, sc, bounds, og, stats)
                     continue
                 if name == "anneal":
